@@ -20,7 +20,7 @@ C06/C17 obligation set (a failing stream call leaves through `?`, no extra code 
 """
 import hirq
 from callgraph import callgraph
-from mir import body_of
+from mir import body_of, op_place
 from report import site_of
 
 from packs_common import IO_TRAITS, io_fallible, is_io_result
@@ -259,6 +259,45 @@ def run(fx, chk, tier):
     chk.floor("R1", "io-fallible call expressions", nsites, FLOOR_SITES)
     chk.analysed["io_call_expressions"] = nsites
 
+    # ---- R5 (MIR, every body in the crate): buffering writers
+    chk.rule("R5", "a buffering writer (BufWriter / LineWriter) built inside the crate is flushed (or unwrapped with into_inner) on every path to a successful return: bytes still in its buffer when it is dropped are written by Drop, which discards the error")
+    nbuf = 0
+    import loops as LP_
+    for fid, fn in sorted(fx.fns.items()):
+        body = body_of(fn)
+        if body is None:
+            continue
+        for b, t in body.calls():
+            pth = t["callee"].get("path") or ""
+            if not (("BufWriter" in pth or "LineWriter" in pth) and pth.split("::")[-1] in ("new", "with_capacity")):
+                continue
+            nbuf += 1
+            wname = "BufWriter" if "BufWriter" in pth else "LineWriter"
+            if t["dest"]["p"]:
+                chk.bad("R5", "%s|%s" % (fid, wname), "buffering writer stored in a place the rule cannot follow", site_of(fn, t.get("line")))
+                continue
+            wl = t["dest"]["l"]
+            # locals that refer to the writer: itself and `&mut` borrows of it
+            refs = {wl}
+            for bb in body.reach:
+                for s_ in body.stmts(bb):
+                    if s_["k"] == "assign" and not s_["place"]["p"] and s_["rv"]["k"] in ("ref", "use", "cast"):
+                        src = s_["rv"]["place"] if s_["rv"]["k"] == "ref" else op_place(s_["rv"]["a"])
+                        if src is not None and src["l"] in refs and not [x for x in src["p"] if x != "deref"]:
+                            refs.add(s_["place"]["l"])
+            flushes = []
+            for b2, t2 in body.calls():
+                tl = (t2["callee"].get("path") or "").split("::")[-1]
+                if tl in ("flush", "into_inner", "into_parts") and t2["args"]:
+                    pl = op_place(t2["args"][0])
+                    if pl is not None and pl["l"] in refs:
+                        flushes.append(b2)
+            oks = LP_.ok_blocks(body)
+            good = bool(flushes) and all(any(body.dominates(f, o) for f in flushes) for o in oks)
+            chk.require(good, "R5", "%s|%s" % (fid, wname), "flushed before every successful return",
+                        "a %s is created here and %s: an I/O fault while its remaining bytes are written on drop is discarded and the call reports success" % (
+                            wname, "never flushed" if not flushes else "not flushed on every path to a successful return"), site_of(fn, t.get("line")))
+    chk.analysed["buffering_writers"] = nbuf
     # ---- R2 (MIR, every body in the crate)
     ntransfer = 0
     used = {}
